@@ -233,7 +233,7 @@ def build():
         "checks": checks,
         "notes": "See DESIGN.md (section 0 = as built). Exit 0 = held on everything explored; exit 1 + VIOLATION line; exit 2 = machinery failure. "
         "Known findings: /verif/known_findings.json (17 entries 'fixed: ...' that suppress nothing, 1 open entry D25 under C05 printed as KNOWN-FINDING). "
-        "./check selftest demonstrates the binding of the specifications to the code; seeded/ holds 240 independently produced breaking changes and what caught them; DESIGN 0.4b records the property-preserving (benign) changes the checks were run against.",
+        "./check selftest demonstrates the binding of the specifications to the code; seeded/ holds 260 independently produced breaking changes and what caught them; DESIGN 0.4b records the property-preserving (benign) changes the checks were run against.",
         "not_applicable": [{"property_id": p, "reason": PENDING_REASON} for p in props if p not in CHECKS],
     }
     (VERIF / "MANIFEST.json").write_text(json.dumps(m, indent=1))
